@@ -82,8 +82,8 @@ def FamSt.discretize (oracle : Parent α) (f : FamSt α) : Except Err (FamSt α)
 def geC (lo : α) : Interval α := Interval.halfLine true (.fin lo) true Constants.TINY   -- [lo, +inf[
 def gtC (lo : α) : Interval α := Interval.halfLine true (.fin lo) false Constants.TINY  -- ]lo, +inf[
 
-def c005 : α := Scalar.ofRat 5 100     -- minimumAlpha / minimumBeta defaults (GammaDiscreteDistribution.h)
-def c00001 : α := Scalar.ofRat 1 10000 -- BetaDiscreteDistribution.cpp:21,24
+def c005 : α := Gen.gammaMinShape   -- minimumAlpha / minimumBeta defaults (GammaDiscreteDistribution.h), regenerated
+def c00001 : α := Gen.betaMinShape  -- BetaDiscreteDistribution.cpp:21,24, regenerated
 
 def freshDD (n : Nat) (prec : α) (scheme : Nat) (dom : Dom α) : DD α :=
   { n := n, dist := [], bounds := [], dom := dom, median := false, scheme := scheme, prec := prec }
